@@ -252,6 +252,13 @@ static const char *cat_name(vnaerr_category_t c)
     default: return "UNKNOWN";
     }
 }
+/*
+ * What the error callback leaves in errno (0: nothing).  An application's
+ * logger calls stdio, isatty, time ...: vnaerr(3) promises that errno is set
+ * again after the callback returns.  Set together with errno_preset.
+ */
+static int verif_cb_errno = 0;
+
 static void error_fn(const char *message, void *arg, vnaerr_category_t cat)
 {
     if (cb_count++ > 0)
@@ -263,6 +270,8 @@ static void error_fn(const char *message, void *arg, vnaerr_category_t cat)
     sb_putc(&cb_json, ',');
     sb_jstr(&cb_json, (const char *)arg);
     sb_putc(&cb_json, ']');
+    if (verif_cb_errno != 0)
+	errno = verif_cb_errno;
 }
 
 /* ------------------------------------------------------------------ */
@@ -904,6 +913,7 @@ int main(int argc, char **argv)
 		end_case();
 		verif_io_kind = 0;
 		verif_errno_preset = 0;
+		verif_cb_errno = 0;
 		snprintf(cur_case, sizeof(cur_case), "%s", tv[1].s);
 		case_line0 = lineno;
 		fprintf(logfp, "{\"case\":\"%s\",\"i\":%d}\n", cur_case, lineno);
